@@ -32,6 +32,8 @@ REPLAYS = {
         ('queuing_rw_mutex', 'MCQueuingRW', 'QueuingRW_PUW.cfg', QRW_VARS, qrw([['lockR', 'up', 'rel'], ['lockW', 'rel'], ['tryR', 'rel']]), QRW_MAP),
     ],
     'thorough': [
+        # 1.6e6 states / 4.2e6 edges: 4-5 operations per thread incl. upgrade + downgrade, try reader that upgrades, re-acquisition in the other mode (5-6 min)
+        ('spin_rw_mutex', 'MCSpinRW', 'SpinRW_Big.cfg', ['m'], ['lock_shared,upgrade,downgrade,rel', 'try_lock_shared,upgrade,rel,lock,rel', 'lock,rel,lock_shared,rel'], STD_MAP),
         ('spin_mutex', 'MCSpinMutex', 'SpinMutex_4.cfg', ['flag'], ['lock,rel,lock,rel', 'try_lock,rel,lock,rel', 'lock,rel,try_lock,rel', 'lock,rel'], STD_MAP),
         ('queuing_mutex', 'MCQueuingMutex', 'QueuingMutex_3b.cfg', ['tail', 'next', 'going'], ['lock,rel,lock,rel', 'lock,rel,lock,rel', 'try_lock,rel,lock,rel'], STD_MAP),
         ('queuing_rw_mutex', 'MCQueuingRW', 'QueuingRW_PF.cfg', QRW_VARS, qrw([['lockR', 'rel'], ['lockW', 'rel'], ['lockR', 'rel']]), QRW_MAP),
@@ -40,7 +42,7 @@ REPLAYS = {
 }
 MODELS = {
     'quick': [('MCRWMutex', 'RWMutex_P2.cfg'), ('MCRWMutex', 'RWMutex_PA.cfg'), ('MCQueuingRW', 'QueuingRW_PT.cfg')],
-    'thorough': [('MCRWMutex', 'RWMutex_PC.cfg'), ('MCRWMutex', 'RWMutex_PB.cfg'), ('MCQueuingRW', 'QueuingRW_PU.cfg'), ('MCSpinRW', 'SpinRW_Big.cfg')],
+    'thorough': [('MCRWMutex', 'RWMutex_PC.cfg'), ('MCRWMutex', 'RWMutex_PB.cfg'), ('MCQueuingRW', 'QueuingRW_PU.cfg')],
 }
 EXCL = ['lock,rel,try_lock,rel', 'try_lock,rel,lock,rel', 'lock,rel,lock,rel']
 RWP1 = ['lock_shared,upgrade,rel', 'lock_shared,upgrade,rel', 'lock,downgrade,rel']
